@@ -40,7 +40,7 @@ func RunSystemCase(cs map[string]any, id int, seed int64) Result {
 		return Result{ID: id, Events: []Event{{"ev": "Call", "case": id, "input": cs}, {"ev": "Return", "delivered": d, "err": err, "result": d}}}
 	}
 	// ---- guest
-	dev := map[string]any{"rr": "r0", "qr": "r0", "st": "s0", "ol": "exact", "buf": "quote"}
+	dev := map[string]any{"rr": "r0", "qr": "r0", "st": "s0", "ol": "exact", "buf": "quote", "len": "kept"}
 	switch str("dev") {
 	case "reportFails":
 		dev["rr"] = "err"
